@@ -903,6 +903,76 @@ func runMerge(c fw.Case) fw.Result {
 	return r
 }
 
+// runLoadEntrypoint: an entrypoint assembled from two files (base + override,
+// slices are appended), elevated or not, on 1-4 replicas: every replica's
+// executable and arguments are the full list, whatever was done to the others.
+func runLoadEntrypoint(c fw.Case) fw.Result {
+	var sp struct {
+		Base     []string `json:"base"`
+		Extra    []string `json:"extra"`
+		Elevated bool     `json:"elevated"`
+		Replicas int      `json:"replicas"`
+	}
+	c.Params(&sp)
+	r := fw.Result{NonTrivial: true}
+	dir, err := os.MkdirTemp(sim.Scratch, "ep-")
+	if err != nil {
+		r.Inconclusive = err.Error()
+		return r
+	}
+	defer os.RemoveAll(dir)
+	list := func(l []string) string {
+		var b strings.Builder
+		for _, e := range l {
+			fmt.Fprintf(&b, "      - %s\n", yq(e))
+		}
+		return b.String()
+	}
+	base := "version: \"0.5\"\nprocesses:\n  ee:\n    entrypoint:\n" + list(sp.Base)
+	if sp.Elevated {
+		base += "    is_elevated: true\n"
+	}
+	if sp.Replicas > 1 {
+		base += fmt.Sprintf("    replicas: %d\n", sp.Replicas)
+	}
+	files := []string{}
+	f1, _ := sim.WriteTemp(dir, "base.yaml", base)
+	files = append(files, f1)
+	want := append([]string(nil), sp.Base...)
+	if len(sp.Extra) > 0 {
+		f2, _ := sim.WriteTemp(dir, "over.yaml", "version: \"0.5\"\nprocesses:\n  ee:\n    entrypoint:\n"+list(sp.Extra))
+		files = append(files, f2)
+		want = append(want, sp.Extra...)
+	}
+	prj, err := loadOnce(files)
+	if err != nil {
+		r.Inconclusive = "load: " + err.Error()
+		return r
+	}
+	if sp.Elevated {
+		want = append([]string{prj.ShellConfig.ElevatedShellCmd, prj.GetElevatedShellArg()}, want...)
+	}
+	n := sp.Replicas
+	if n < 1 {
+		n = 1
+	}
+	for k := 0; k < n; k++ {
+		name := refReplicaName("ee", n, k)
+		pc, ok := prj.Processes[name]
+		if !ok {
+			r.Add("C16", "replica-missing", "replica %s missing after load", name)
+			continue
+		}
+		got := append([]string{pc.Executable}, pc.Args...)
+		r.Count("replica_entrypoints_checked", 1)
+		if !eqStrs(got, want) {
+			r.Add("C16", "replica-entrypoint", "replica %s (of %d, elevated=%v, entrypoint from %d file(s)): executable+args %q, expected %q", name, n, sp.Elevated, len(files), got, want)
+		}
+	}
+	r.Sig = sim.Hash(fmt.Sprint(sp))
+	return r
+}
+
 func init() {
 	fw.Register(&fw.Property{
 		ID: "C16", Level: "exploration",
@@ -914,9 +984,26 @@ func init() {
 				s := fw.SubSeed(seed, i)
 				cs = append(cs, fw.MkCase("C16", "load", s, genLdSpec(fw.Rand(s))))
 			}
+			for i := 0; i < tierN(tier, 400, 4000); i++ {
+				s := fw.SubSeed(seed, 3000000+i)
+				rng := fw.Rand(s)
+				var base, extra []string
+				for k := 0; k < 1+rng.Intn(4); k++ {
+					base = append(base, fmt.Sprintf("b%d", k))
+				}
+				for k := 0; k < rng.Intn(3); k++ {
+					extra = append(extra, fmt.Sprintf("x%d", k))
+				}
+				cs = append(cs, fw.MkCase("C16", "entrypoint", s, map[string]any{"base": base, "extra": extra, "elevated": rng.Intn(3) != 0, "replicas": []int{0, 1, 2, 3, 4}[rng.Intn(5)]}))
+			}
 			return cs
 		},
-		Run:     runLoadDet,
+		Run: func(c fw.Case) fw.Result {
+			if c.Kind == "entrypoint" {
+				return runLoadEntrypoint(c)
+			}
+			return runLoadDet(c)
+		},
 		Workers: func(string) int { return 16 },
 	})
 	fw.Register(&fw.Property{
